@@ -21,6 +21,9 @@ import Duckling.Lemmas.RBasic
                                  the importer continues;
   * `C12_func_file`             FUNC records the file it is written in, and RUN runs the body with that file as its location —
                                  so START inside a function resolves from the folder of the defining file.
+  * `C12_start_latest_definition`  START / STARTENV at the level of VALUES: a name the file did not define keeps the importer's value or body; a name
+                                 it (re)defined — a variable the importer already had, a function with the same name and another body or arity,
+                                 no new name at all — carries the file's (last) definition afterwards: the latest definition wins;
   * `C12_paste_flat`            **the paste equivalence for flat files**: when the imported file is a flat script of pass-through lines (a plain
                                  Ducky / Flipper payload of ANY length — the commonest thing to import), `START f` / `STARTCODE f` contribute
                                  exactly the lines that the same text standing at that point contributes, in the same order, and the
@@ -191,5 +194,46 @@ theorem C12_paste_flat (d : Nat) (ctx : Ctx) (pos : Pos) (name : Str) (a : Arg) 
     · simp only [henv, if_false, Bool.false_eq_true]
     · show st1.warns = st.warns; rw [hw1]; rfl
     · show st1.prints = st.prints; rw [hp1]; rfl
+
+theorem assocGet_none_iff {β : Type} (l : List (Str × β)) (k : Str) : assocGet l k = none ↔ ∀ p ∈ l, (p.1 == k) = false := by
+  induction l with
+  | nil => simp [assocGet]
+  | cons p rest ih =>
+    obtain ⟨k', v'⟩ := p
+    simp only [assocGet, List.mem_cons, forall_eq_or_imp]
+    cases h : (k' == k) with
+    | true => simp
+    | false => simp [ih]
+
+theorem assocGet_reverse_none {β : Type} (l : List (Str × β)) (k : Str) (h : assocGet l k = none) : assocGet l.reverse k = none := by
+  rw [assocGet_none_iff] at h ⊢
+  intro p hp
+  exact h p (List.mem_reverse.mp hp)
+
+/-- **the latest definition wins** (START and STARTENV): what the file did not define is the importer's; what it defined — new or a
+    redefinition of a name the importer already had — is the file's -/
+theorem C12_start_latest_definition (name : Str) (st : St) (r : Out) (hn : upper name = "START".toList ∨ upper name = "STARTENV".toList) :
+    ∃ rc, startPost name st r = .ok rc ∧
+      (∀ f, assocGet r.st.env.funcs f = none → assocGet rc.st.env.funcs f = assocGet st.env.funcs f) ∧
+      (∀ f fn, assocGet r.st.env.funcs.reverse f = some fn → assocGet rc.st.env.funcs f = some fn) ∧
+      (∀ x, assocGet r.st.env.user x = none → assocGet rc.st.env.user x = assocGet st.env.user x) ∧
+      (∀ x v, assocGet r.st.env.user.reverse x = some v → assocGet rc.st.env.user x = some v) := by
+  have h1 : (upper name != "STARTCODE".toList) = true := by rcases hn with h | h <;> rw [h] <;> decide
+  have henv : (startBaseWarn r.st r.sig).env = r.st.env := by simp only [startBaseWarn]; split <;> simp [addWarn] <;> split <;> rfl
+  have hf : ∀ f, assocGet (leave true st (startBaseWarn r.st r.sig)).env.funcs f = assocGet (assocUpdate st.env.funcs r.st.env.funcs) f := by
+    intro f; simp only [leave, henv, if_true, VEnv.exitParallel]
+  have hu : ∀ x, assocGet (leave true st (startBaseWarn r.st r.sig)).env.user x = assocGet (assocUpdate st.env.user r.st.env.user) x := by
+    intro x; simp only [leave, henv, if_true, VEnv.exitParallel]
+  by_cases henvk : (upper name == "STARTENV".toList) = true
+  · refine ⟨{ st := leave true st (startBaseWarn r.st r.sig) }, by unfold startPost; simp only [h1, henvk, if_true], ?_, ?_, ?_, ?_⟩
+    · intro f h; simp only [hf, assocGet_assocUpdate, assocGet_reverse_none _ _ h]
+    · intro f fn h; simp only [hf, assocGet_assocUpdate, h]
+    · intro x h; simp only [hu, assocGet_assocUpdate, assocGet_reverse_none _ _ h]
+    · intro x v h; simp only [hu, assocGet_assocUpdate, h]
+  · refine ⟨{ st := leave true st (startBaseWarn r.st r.sig), out := r.out }, by unfold startPost; simp only [h1, henvk, if_false, Bool.false_eq_true], ?_, ?_, ?_, ?_⟩
+    · intro f h; simp only [hf, assocGet_assocUpdate, assocGet_reverse_none _ _ h]
+    · intro f fn h; simp only [hf, assocGet_assocUpdate, h]
+    · intro x h; simp only [hu, assocGet_assocUpdate, assocGet_reverse_none _ _ h]
+    · intro x v h; simp only [hu, assocGet_assocUpdate, h]
 
 end Duckling.Props.C12
